@@ -1,4 +1,4 @@
 SPECIFICATION Spec
-CONSTANTS NG = 3 Cap = 3 MaxSl = 2 MaxOps = 6 ZeroToCap = TRUE AllowShrink = TRUE
+CONSTANTS NG = 3 Cap = 3 MaxSl = 2 MaxOps = 6 ZeroToCap = TRUE AllowShrink = TRUE AllowGrow = FALSE ResizePutsOld = FALSE
 INVARIANTS NotBad NoForeignReachable
 CHECK_DEADLOCK FALSE
